@@ -16,6 +16,7 @@ import (
 
 	"github.com/basecamp/kamal-proxy/internal/verif/memnet"
 	"github.com/basecamp/kamal-proxy/internal/verif/vsched"
+	"github.com/basecamp/kamal-proxy/internal/verif/vsync"
 )
 
 func init() { checks["C14"] = checkC14 }
@@ -366,6 +367,65 @@ func c14EarlyAnswerBig(w *World) []Violation {
 	return vs
 }
 
+// c14AfterEventStream: a response-buffering service has served an event stream (which leaves the buffer); afterwards
+// buffered responses that overlap in time still reach their clients byte for byte.
+func c14AfterEventStream(si int) func(w *World) []Violation {
+	return func(w *World) []Violation {
+		var vs []Violation
+		s := c14Services[si]
+		w.reqSeq++
+		o := w.Do(ReqSpec{ID: fmt.Sprintf("c14sse-%d", w.reqSeq), Method: "POST", Host: s.host(si), Path: "/x", Header: [][2]string{{"X-Resp", "len=9;pat=one;kind=sse"}}})
+		if o.Status != 200 || !strings.Contains(string(o.Body), "data: three") {
+			vs = append(vs, Violation{"C14", "event-stream-broken", o.Summary()})
+		}
+		body := func(n int) string {
+			b := make([]byte, n)
+			for i := range b {
+				b[i] = byte('a' + i%26)
+			}
+			return string(b)
+		}
+		for round := 0; round < 3; round++ {
+			lens := []int{8, 5, 3, 7}[:2+round%3]
+			res := make([]*ReqObs, len(lens))
+			var wg vsync.WaitGroup
+			for i, n := range lens {
+				i, n := i, n
+				wg.Add(1)
+				pat := "one"
+				if i == 0 {
+					pat = "bytes" // written byte by byte with gaps: in progress while the others come and go
+				}
+				w.reqSeq++
+				id := fmt.Sprintf("c14ov-%d", w.reqSeq)
+				vsched.GoTagged("client", func() {
+					defer wg.Done()
+					res[i] = w.Do(ReqSpec{ID: id, Method: "POST", Host: s.host(si), Path: "/x", Header: [][2]string{{"X-Resp", fmt.Sprintf("len=%d;pat=%s;kind=plain", n, pat)}}})
+				})
+				time.Sleep(15 * time.Millisecond)
+			}
+			wg.Wait()
+			for i, n := range lens {
+				r := res[i]
+				if r == nil || r.Status != 200 || string(r.Body) != body(n) {
+					sum := "none"
+					if r != nil {
+						sum = r.Summary() + " body " + firstN(r.Body, 40)
+					}
+					vs = append(vs, Violation{"C14", "response-altered after-event-stream", fmt.Sprintf("svc=%d: %d buffered responses in progress at once after an event stream; the one of %d bytes arrived as %s", si, len(lens), n, sum)})
+				}
+			}
+		}
+		if f := spillFiles(w); len(f) > 0 {
+			vs = append(vs, Violation{"C14", "spill-file-left-behind kind=after-event-stream", fmt.Sprint(f)})
+			for _, x := range f {
+				os.Remove(w.Dir + "/tmp/" + x)
+			}
+		}
+		return vs
+	}
+}
+
 // c14Head: a HEAD response declares the entity's length but has no body: nothing is buffered, so no limit can be
 // exceeded; status and headers pass through whatever the declared length is.
 func c14Head(w *World) []Violation {
@@ -651,6 +711,11 @@ func c14Cases(tier string) []ECase {
 					cases = append(cases, ECase{Name: "L2 " + in.name(), Class: fmt.Sprintf("L2 svc=%d %s", si, kind), Run: c14Level2(in)})
 				}
 			}
+		}
+	}
+	for si, s := range c14Services {
+		if s.respBuf && (s.Lresp == 0 || s.Lresp >= 8) {
+			cases = append(cases, ECase{Name: fmt.Sprintf("L2 svc=%d overlapping buffered responses after an event stream", si), Class: "L2 after-event-stream", Run: c14AfterEventStream(si)})
 		}
 	}
 	cases = append(cases, ECase{Name: "L2 HEAD requests for entities on both sides of the response limit", Class: "L2 head", Run: c14Head})
